@@ -47,6 +47,8 @@ struct RunOpts {
 	bool framing_check = false; // C10: accepted byte stream = in-order concatenation of whole generated frames
 	bool ws_check = true;      // C12/C13: handshake answers, close statuses, pongs
 	bool reserve_conn0 = false; // operations with a non-zero connection selector never land on connection 0
+	bool census = false;        // C15: at the end a fresh subscriber lists everything; kinds and values must be ones some request asked for
+	bool gap_check = false;     // C02 under back-pressure: on a connection that is still open every request with an id has been answered
 	bool allow_reset_join = false; // a reset racing with deliveries to that connection is a fault (C05/C11 domain)
 	std::set<std::string> ignore_rules; // known findings suppressed by rule id
 };
@@ -132,10 +134,11 @@ public:
 	size_t next_op = 0;
 	size_t step_no = 0;
 	uint64_t next_id = 1;
-	enum Phase { START, RUN, CLOSING, PROBE, TERM, DONE } phase = START;
+	enum Phase { START, RUN, CLOSING, PROBE, TERM, DONE, DRAINED, CENSUS } phase = START;
 	// baseline
 	long base_alloc_calls = 0;
 	std::map<std::pair<int, std::string>, long> sent_ids;
+	std::map<std::pair<int, std::string>, long> direct_ids; // requests whose response is produced while they are processed (everything but set/call)
 	size_t base_alloc = 0, base_fds = 0, base_live = 0; int base_peers = 0; size_t base_timers = 0;
 	std::vector<int> base_fdset;
 	// expectations of the running step
@@ -155,6 +158,8 @@ public:
 	std::map<std::pair<int, std::string>, int> open_keys; // fetch requests sent minus unfetch responses seen
 	int observer = -1;
 	int probe_conn = -1; int probe_attempts = 0; long probe_failures_seen = 0;
+	int census_conn = -1; long census_failures_seen = 0;
+	std::map<std::string, std::set<std::string>> asked; // path -> every value an add/change request carried for it ("<method>" for an add without value)
 	int sigterm_count = 0;
 	size_t max_alloc_seen = 0;
 	Value *batch_sink = nullptr; int batch_conn = -1;
@@ -282,7 +287,20 @@ public:
 		CConn &c = cc[ci];
 		if (batch_sink) { batch_sink->push(v); return; }
 		{
-			auto note = [&](const Value &o) { const Value *id = o.get("id"); if (o.is_obj() && o.has("method") && model::valid_id(id)) sent_ids[{ci, js::dump(*id)}]++; };
+			auto note = [&](const Value &o) {
+				const Value *id = o.get("id"); if (!(o.is_obj() && o.has("method") && model::valid_id(id))) return;
+				sent_ids[{ci, js::dump(*id)}]++;
+				const Value *mt = o.get("method");
+				if (!(mt->is_str() && (mt->s == "set" || mt->s == "call"))) direct_ids[{ci, id_key(*id)}]++;
+			};
+			auto note_value = [&](const Value &o) {
+				const Value *mt = o.get("method"), *pr = o.get("params");
+				if (!o.is_obj() || !mt || !mt->is_str() || !pr || !pr->is_obj() || (mt->s != "add" && mt->s != "change")) return;
+				const Value *pa = pr->get("path"); if (!pa || !pa->is_str()) return;
+				const Value *va = pr->get("value");
+				asked[pa->s].insert(va ? js::dump(*va) : std::string("<method>"));
+			};
+			if (v.is_arr()) for (auto &e : v.a) note_value(e); else note_value(v);
 			if (v.is_arr()) for (auto &e : v.a) note(e); else note(v);
 		}
 		std::string txt = js::dump(v);
@@ -587,10 +605,11 @@ public:
 			}
 			if (mut != 7 && mut != 10) params = p;
 			Value r = Value::obj();
-			if (op.idm != ID_NONE) r.set("id", make_id(op));
+			if (op.idm != ID_NONE || mi == 6) r.set("id", make_id(op)); // (an unfetch always carries an id: its response delimits the fetch's life)
 			r.set("method", Value::str(meths[mi]));
 			if (!no_params) r.set("params", params);
 			if (mi == 5) open_keys[{ci, js::dump(fetch_id_value(((op.b % 6) + 6) % 6))}]++;
+			if (mi == 6) { const Value *fid = params.is_obj() ? params.get("id") : nullptr; if (fid && !no_params) unfetch_reqs[{ci, js::dump(*r.get("id"))}] = js::dump(*fid); } // a mutated unfetch that still succeeds ends the fetch like any other
 			send_value(ci, r, evs);
 			vd.labels.insert("mutated-request");
 			return;
@@ -879,6 +898,61 @@ public:
 	// bytes first and the parts of a new frame after them. A = bytes the kernel accepted. A must be the concatenation, in order,
 	// of whole frames of G (a frame may be missing only as a whole), optionally followed by a proper prefix of a later frame if
 	// the connection was closed afterwards or the daemon still holds unsent bytes.
+	// A connection that the daemon keeps open has received a response for every request with an id it sent (requests still routed
+	// to an owner excepted): losing a response under back-pressure and carrying on is not an option - either the response is
+	// queued, or the connection ends.
+	// After everything (and after the injected fault, if any): whatever a fresh subscriber is told exists must be something a request
+	// asked for - a state keeps being a state with a value some add/change carried, a method keeps being a method. A request that
+	// failed half way must not leave an element in a shape nobody asked for.
+	void census_judge()
+	{
+		simk::Kernel &k = simk::K();
+		decode(census_conn);
+		CConn &c = cc[census_conn];
+		bool answered = false;
+		for (auto &mm : c.msgs) { const Value *id = mm.get("id"); if (id && id->is_str() && id->s == "census" && mm.has("result")) answered = true; }
+		if (!answered || k.alloc_failed_seen > census_failures_seen) { vd.stat["census_inconclusive"]++; return; } // the fault hit the census itself
+		for (auto &mm : c.msgs) {
+			const Value *meth = mm.get("method"), *p = mm.get("params");
+			if (!meth || mm.has("id") || !p || !p->is_obj()) continue;
+			const Value *path = p->get("path"), *ev = p->get("event");
+			if (!path || !path->is_str() || !ev || !ev->is_str() || ev->s != "add") continue;
+			auto it = asked.find(path->s);
+			std::string shape = p->has("value") ? js::dump(*p->get("value")) : std::string("<method>");
+			if (it == asked.end()) { vd.add("C15/census-unknown-element", "'" + path->s + "' exists although no add request ever named it"); continue; }
+			bool ok = it->second.count(shape) > 0;
+			if (!ok && p->has("value")) for (auto &a : it->second) { Value av; if (a != "<method>" && js::parse(a, av) && js::equal(av, *p->get("value"))) ok = true; }
+			if (!ok) vd.add("C15/census-element-in-unrequested-shape", "'" + path->s + "' is reported as " + (p->has("value") ? "state with value " + shape.substr(0, 80) : std::string("method (no value)")) + " but no add/change request asked for that");
+			vd.stat["census_elements"]++;
+		}
+		vd.stat["census_done"]++;
+	}
+
+	static std::string id_key(const Value &id) { if (id.is_num()) { char b[40]; snprintf(b, sizeof b, "%.12g", id.d); return b; } return js::dump(id); } // numbers: same tolerance as js::equal (cJSON prints 15 significant digits)
+	void gap_judge()
+	{
+		simk::Kernel &k = simk::K();
+		for (size_t ci = 0; ci < cc.size(); ci++) {
+			CConn &c = cc[ci];
+			const simk::Conn &kc = k.conns[c.kc];
+			if (c.is_probe || c.client_ended || kc.daemon_closed || !kc.accepted || c.poisoned || c.model_dropped || c.decode_failed) continue;
+			if (c.ws && (!c.handshake_valid || !c.http_done || c.http.status != 101)) continue;
+			// a socket on which a write failed outright is dead for the daemon whatever happens next; only slow readers are judged
+			bool write_error = false; for (auto &w : kc.writes) if (w.result < 0 && w.result != -EAGAIN) write_error = true;
+			if (write_error) continue;
+			decode((int)ci);
+			std::map<std::string, long> got;
+			for (auto &msg : c.msgs) if (msg.is_obj() && !msg.has("method") && msg.has("id")) got[id_key(*msg.get("id"))]++;
+			for (auto &s : direct_ids) {
+				if (s.first.first != (int)ci) continue;
+				long have = got.count(s.first.second) ? got[s.first.second] : 0;
+				if (have < s.second) { vd.add("C02/response-lost-on-open-connection", "conn " + std::to_string(ci) + " id " + s.first.second + ": " + std::to_string(s.second) + " request(s) answered while they are processed, " + std::to_string(have) + " response(s); the connection is open, its reader caught up and the daemon is idle"); return; }
+			}
+			vd.stat["gap_checked_conns"]++;
+			if (c.faulty) vd.stat["gap_checked_slow_conns"]++;
+		}
+	}
+
 	// C10, "later writability events complete the frame": the daemon is idle; a connection whose socket takes bytes again (the
 	// writability edge was delivered when the block ended) must not still have a queued remainder of its last write.
 	void flush_judge()
@@ -1208,6 +1282,14 @@ public:
 		};
 		bool first_is_solo = solo(sc.ops[next_op]);
 		while (!first_is_solo && j < sc.ops.size() && sc.ops[j].join && !solo(sc.ops[j])) j++;
+		// whatever a faulty connection (one with a write plan) sends is a step of its own: the daemon may drop that connection while
+		// it serves it, and the model applies such a drop after the step's other effects
+		for (size_t i = next_op; i < j && j - next_op > 1; i++) {
+			const Op &o = sc.ops[i];
+			if (o.kind == CONNECT || o.kind == ADVANCE || o.kind == FAULT) continue;
+			int ci = live_conn(o.conn);
+			if (ci >= 0 && cc[ci].faulty) { j = (i == next_op) ? next_op + 1 : i; break; }
+		}
 		// several connection attempts may reach the listening sockets before the daemon runs again (only connects join connects)
 		if (sc.ops[next_op].kind == CONNECT) while (j < sc.ops.size() && sc.ops[j].join && sc.ops[j].kind == CONNECT) j++;
 		connect_burst = sc.ops[next_op].kind == CONNECT && j - next_op > 1;
@@ -1264,7 +1346,8 @@ public:
 			size_t n = (size_t)(((op.a % 5) + 5) % 5);
 			Value arr = Value::arr();
 			size_t k = i + 1;
-			if (ci >= 0 && !cc[ci].client_ended && !simk::K().conns[cc[ci].kc].daemon_closed) {
+			// (a faulty connection sends single messages only: the daemon may drop it between two members of a batch)
+			if (ci >= 0 && !cc[ci].client_ended && !simk::K().conns[cc[ci].kc].daemon_closed && !cc[ci].faulty) {
 				batch_sink = &arr; batch_conn = ci;
 				for (; k < sc.ops.size() && k <= i + n; k++) {
 					int kd = sc.ops[k].kind;
@@ -1340,11 +1423,20 @@ public:
 			take_baseline();
 			phase = RUN;
 			// fallthrough
+		case DRAINED:
 		case RUN:
-			if (step_no > 0) judge_step();
+			if (step_no > 0 && phase == RUN) judge_step();
 			if (!vd.failed() && step()) return true;
 			if (vd.failed() && !only_inconclusive()) { phase = TERM; return finish_term(); }
 			// orderly end
+			if (opt.gap_check && phase == RUN) {
+				// every slow reader catches up; then the daemon gets the chance to flush what it queued
+				phase = DRAINED;
+				bool any = false;
+				for (auto &c : cc) { simk::Conn &kc = k.conns[c.kc]; kc.wplan.clear(); if (kc.blocked) { k.drain(c.kc); any = true; } }
+				if (any) return true;
+			}
+			if (opt.gap_check) { gap_judge(); phase = RUN; }
 			if (opt.serve_probe) {
 				phase = PROBE;
 				k.faults.clear(); // the probe is a healthy connection
@@ -1371,6 +1463,17 @@ public:
 				}
 				if (!ok) vd.add("serve/probe-unanswered", "a fresh connection got no info response at the end of the scenario");
 			}
+			if (opt.census && phase != CENSUS) {
+				phase = CENSUS;
+				census_failures_seen = k.alloc_failed_seen;
+				census_conn = (int)cc.size();
+				CConn c; c.transport = 0; c.is_probe = true; c.kc = k.connect(simk::EP_RAW, 0); cc.push_back(c);
+				k.send(c.kc, codec::raw_frame("{\"id\":\"census\",\"method\":\"fetch\",\"params\":{\"id\":\"census\"}}"));
+				return true;
+			}
+			// fallthrough
+		case CENSUS:
+			if (phase == CENSUS) census_judge();
 			if (sc.end == 1) { phase = TERM; return finish_term(); }
 			phase = CLOSING;
 			{
